@@ -81,10 +81,10 @@ def shipped_events():
     return evs
 
 
-def record_driver(wd, seed, steps):
-    out = os.path.join(wd, "driver_%d.ndjson" % seed)
+def record_driver(wd, seed, steps, optimised=False):
+    out = os.path.join(wd, "driver_%d%s.ndjson" % (seed, "_O" if optimised else ""))
     env = dict(os.environ, MEASURED_VERIF="1", PYTHONDONTWRITEBYTECODE="1", PYTHONHASHSEED="0")
-    p = subprocess.run([PY, os.path.join(VERIF, "harness", "ledger_driver.py"), REPO, out, str(seed), str(steps)],
+    p = subprocess.run([PY] + (["-O"] if optimised else []) + [os.path.join(VERIF, "harness", "ledger_driver.py"), REPO, out, str(seed), str(steps)],
                        env=env, cwd=wd, stdout=subprocess.PIPE, stderr=subprocess.STDOUT, text=True, timeout=1800)
     if p.returncode != 0 or not os.path.exists(out):
         raise MachineryError("ledger driver failed (rc=%s):\n%s" % (p.returncode, p.stdout[-2000:]))
@@ -207,7 +207,26 @@ def run(v, prop, tier, seed):
     wd = workdir("ledger")
     progs = [(seed, 2500)] if tier == "quick" else [(seed, 12000), (seed + 1, 12000), (seed + 2, 12000)]
     for s, n in progs:
-        validate(v, prop, record_driver(wd, s, n), "driver%d" % s, wd)
+        evs = record_driver(wd, s, n)
+        validate(v, prop, evs, "driver%d" % s, wd)
+        if prop == "C07":
+            # the same program under python -O: the recorded histories must be identical, event for event
+            evs_o = record_driver(wd, s, n, optimised=True)
+            a = [json.dumps(e, sort_keys=True) for e in evs if e["e"] in ("decl", "scale", "conv", "arith", "cmp")]
+            b = [json.dumps(e, sort_keys=True) for e in evs_o if e["e"] in ("decl", "scale", "conv", "arith", "cmp")]
+            v.impl += len(b)
+            v.evaluations += len(b)
+            diff = next((i for i, (x, y) in enumerate(zip(a, b)) if x != y), None if len(a) == len(b) else min(len(a), len(b)))
+            v.extra["ledger"]["driver%d" % s]["events_under_minus_O"] = len(b)
+            v.extra["ledger"]["driver%d" % s]["first_difference_under_minus_O"] = diff
+            if diff is not None:
+                ea = json.loads(a[diff]) if diff < len(a) else {"e": "(end of the history)"}
+                eb = json.loads(b[diff]) if diff < len(b) else {"e": "(end of the history)"}
+                what = ea.get("op") or ea["e"]
+                v.violations.append({"prop": "C07", "key": "trace:mode-differs:%s:%s" % (ea["e"], what),
+                                     "detail": "event %d of the recorded program differs between python and python -O: %s  vs  %s" % (
+                                         diff, _describe(ea, "") if ea["e"] in ("conv", "arith", "cmp") else ea, _describe(eb, "") if eb["e"] in ("conv", "arith", "cmp") else eb),
+                                     "path": [ea, eb]})
     if tier != "quick":
         evs, summary = record_suite(wd)
         validate(v, prop, evs, "suite", wd)
